@@ -17,7 +17,8 @@ from vlib.common import COQ
 
 EFF_NAMES = ["STORAGE", "TRANSIENT", "MEMORY", "IMMUTABLES", "RETURNDATA", "LOG", "BALANCE", "EXTCODE", "FMP"]
 STATIC = ["C14/Venom.v", "C14/VenomProofs.v", "C14/VenomNames.v"]
-VAL_STATIC = ["C14/VenomSim.v", "C14/ValRUV.v", "C14/ValDFT.v", "C14/ValCopy.v", "C14/Liveness.v", "C14/PropsVal.v"]
+VAL_STATIC = ["C14/VenomSim.v", "C14/ValRUV.v", "C14/ValDFT.v", "C14/ValCopy.v", "C14/Liveness.v", "C14/PropsVal.v",
+              "C14/VenomCall.v", "C14/VenomCallSim.v", "C14/ValCall.v", "C14/PropsCall.v"]
 VALIDATED = ("RemoveUnusedVariablesPass", "AssignElimination", "SingleUseExpansion", "DFTPass")
 TV_MISMATCHES = set()        # (program, level, pass invocation index) reported by the vrun differential in this run
 FUEL = 4000
